@@ -790,6 +790,9 @@ Qed.
 
 Lemma inv_spec P s : InvP P g0 s -> Spec g0 s.
 Proof. intros H. destruct (inv_spec_sync P s H) as (l & Hs & _). exists l. exact Hs. Qed.
+
+Lemma invw_spec s : InvW g0 s -> Spec g0 s.
+Proof. exact (inv_spec SqSub s). Qed.
 End SpecFromInv.
 
 (* ---------------------------------------------------------------- remove as originally written *)
